@@ -99,7 +99,15 @@ def load_expected(prop):
 def run_rules(prop, prog, root, tier):
     mod = load_rules(prop)
     ctx = Ctx(prop, prog, root, tier)
-    mod.run(ctx)
+    try:
+        mod.run(ctx)
+    except AnalysisBroken as e:
+        # a violation already established is not masked by a later rule that could not be evaluated (typically
+        # because of that very violation): report what was found; the rest of the rules did not run
+        if not any(not i["ok"] for i in ctx.instances):
+            raise
+        ctx.partial = str(e)
+        ctx.note("evaluation stopped after the violation(s) below: " + str(e))
     return ctx
 
 
@@ -115,7 +123,7 @@ def check_counts(prop, ctx):
         # a rule with a failing instance is not vacuous: dependent instances (the links of a propagation
         # chain after the broken one, the cells after a rejected state) are legitimately not generated,
         # and the failure itself is reported
-        if counts.get(rule, 0) < minimum and rule not in failing:
+        if counts.get(rule, 0) < minimum and rule not in failing and not getattr(ctx, "partial", None):
             raise AnalysisBroken("%s rule %s matched %d instances, frozen minimum is %d "
                                  "(a rule that matches nothing proves nothing)" %
                                  (prop, rule, counts.get(rule, 0), minimum))
